@@ -754,6 +754,25 @@ func (sc *Scope) call(x *SExpr) Val {
 			f = "msOfF"
 		}
 		return Val{Typ: msetType, Leaves: []*Term{App(f, Sel(vc.sv(sc.state(), n, srt), a.sBase()), a.sOff(), a.sLen())}}
+	case "seq":
+		// seq(s): the sequence of values of a slice of scalars, as an abstract value (extensional)
+		a := arg(0)
+		sl, ok := a.Typ.Underlying().(*types.Slice)
+		if !ok {
+			sfail("seq(slice)")
+		}
+		ls := e.layout(sl.Elem())
+		if len(ls) != 1 {
+			sfail("seq: element type must be scalar")
+		}
+		n := "M." + typeKey(sl.Elem())
+		srt := ArrSort("Int", ArrSort("Int", ls[0].Sort))
+		vc.noteSort(n, srt)
+		f := "seqOfI"
+		if ls[0].Kind == "float" {
+			f = "seqOfF"
+		}
+		return Val{Typ: seqType, Leaves: []*Term{App(f, Sel(vc.sv(sc.state(), n, srt), a.sBase()), a.sOff(), a.sLen())}}
 	case "sameSlice":
 		a, b := arg(0), arg(1)
 		var cs []*Term
